@@ -135,6 +135,9 @@ type stageCase struct {
 	p       pred // predicate of TaskFn / TaskWhile / SkipFn / SkipWhile
 	ma, mb  int  // MapChan: fn v = ma*v + mb
 	ptr     bool // element type *int instead of int: the user function dereferences its argument; a fabricated zero value is nil
+	pre     int  // state of the input channel at the moment the combinator is called: 0 open and empty (producer starts at once),
+	// 1 already closed and empty, 2 already closed with all its values buffered, 3 open with k values already buffered,
+	// 4 open, unbuffered or not, with a producer that has not started yet
 	resume  bool // abandon scenario, second flavour: after the cancel the consumer reads on and the producer keeps feeding
 	ctxKind int  // mode 4: 0 = cancel() called before the combinator, 1 = a context whose deadline has already passed
 	mu      sync.Mutex
@@ -269,6 +272,24 @@ func genStage(r *vhlib.Rng, which int) *stageCase {
 			}
 		}
 	}
+	if which != 0 && !c.nilIn {
+		switch r.Intn(12) {
+		case 0, 1:
+			c.pre, c.planned = 1, nil
+		case 2, 3:
+			c.pre = 2
+		case 4, 5:
+			c.pre = 3
+		case 6:
+			c.pre = 4
+		}
+		if c.pre == 1 || c.pre == 2 {
+			c.incap = len(c.planned) + r.Intn(2) // everything is in the buffer before the call
+			if c.mode == 2 || c.mode == 5 || c.mode == 7 {
+				c.mode = 0 // no producer to drive those
+			}
+		}
+	}
 	if c.nilIn {
 		c.planned = nil
 	}
@@ -390,18 +411,38 @@ func runStage[T any](c *stageCase, e codec[T]) {
 	if !c.nilIn && !isStream {
 		in = make(chan T, c.incap)
 	}
+	handed := 0
+	inClosed := false
+	if in != nil {
+		switch c.pre {
+		case 1, 2: // closed (and, for 2, full) before the combinator exists
+			for _, v := range c.planned {
+				in <- e.enc(v)
+				handed++
+			}
+			close(in)
+			inClosed = true
+		case 3: // some values are already waiting in the buffer
+			for handed < len(c.planned) && handed < c.incap && !((c.mode == 5 || c.mode == 7) && handed == c.k) {
+				in <- e.enc(c.planned[handed])
+				handed++
+			}
+		}
+	}
 	out := mkStage(c, e, ctx, in)
 	stop := make(chan struct{})
 	var wg sync.WaitGroup
-	handed := 0
-	if in != nil {
+	if in != nil && !inClosed {
 		wg.Add(1)
 		go func() {
 			defer wg.Done()
+			if c.pre == 4 {
+				time.Sleep(time.Duration(rp.Range(50, 600)) * time.Microsecond)
+			}
 			if c.mode == 2 && c.k == 0 {
 				doCancel()
 			}
-			for _, v := range c.planned {
+			for _, v := range c.planned[handed:] {
 				if (c.mode == 5 || c.mode == 7) && handed == c.k {
 					break
 				}
@@ -661,6 +702,100 @@ func (c *stageCase) term() string {
 		vhlib.IntList(c.ins), vhlib.IntList(c.outs), vhlib.Bool(c.closed), vhlib.Bool(c.cancelled), vhlib.IntList(calls))
 }
 
+// feed prepares an int input channel in a given state AT THE MOMENT THE COMBINATOR IS CALLED and returns the function
+// that hands over the rest and closes (nil when nothing is left to do): pre = 0 open and empty, 1/2 already closed with
+// everything (possibly nothing) buffered, 3 open with up to cap values already buffered, 4 open with a late producer.
+func feed(pre int, planned []int, capacity int, rp *vhlib.Rng) (chan int, func()) {
+	switch pre {
+	case 1, 2:
+		ch := make(chan int, len(planned)+capacity%2)
+		for _, v := range planned {
+			ch <- v
+		}
+		close(ch)
+		return ch, nil
+	case 3:
+		ch := make(chan int, capacity)
+		k := 0
+		for k < len(planned) && k < capacity {
+			ch <- planned[k]
+			k++
+		}
+		return ch, func() {
+			for _, v := range planned[k:] {
+				delay(rp)
+				ch <- v
+			}
+			close(ch)
+		}
+	default:
+		ch := make(chan int, capacity)
+		return ch, func() {
+			if pre == 4 {
+				time.Sleep(time.Duration(rp.Range(50, 600)) * time.Microsecond)
+			}
+			for _, v := range planned {
+				delay(rp)
+				ch <- v
+			}
+			close(ch)
+		}
+	}
+}
+
+func genPre(r *vhlib.Rng) int {
+	switch r.Intn(12) {
+	case 0, 1:
+		return 1
+	case 2, 3:
+		return 2
+	case 4, 5:
+		return 3
+	case 6:
+		return 4
+	}
+	return 0
+}
+
+// streamReuse: Stream(ctx, values...) is handed the caller's slice itself: it must leave it untouched and a second
+// Stream over the same slice must deliver the same sequence.
+type streamReuseCase struct {
+	vals, outs2        []int
+	untouched, closed2 bool
+}
+
+func (c *streamReuseCase) run() {
+	drain := func(out <-chan int) (vs []int, closed bool) {
+		dl := time.NewTimer(deadlineNow())
+		defer dl.Stop()
+		for {
+			select {
+			case v, ok := <-out:
+				if !ok {
+					return vs, true
+				}
+				vs = append(vs, v)
+			case <-dl.C:
+				unclosed.Add(1)
+				return vs, false
+			}
+		}
+	}
+	vals := append([]int(nil), c.vals...)
+	ctx, cancel := context.WithCancel(context.Background())
+	defer cancel()
+	_, closed1 := drain(bc.Stream(ctx, vals...))
+	c.untouched = len(vals) == len(c.vals)
+	for i := range c.vals {
+		if vals[i] != c.vals[i] {
+			c.untouched = false
+		}
+	}
+	if closed1 {
+		c.outs2, c.closed2 = drain(bc.Stream(ctx, vals...))
+	}
+}
+
 // ---------- fan-in ----------
 
 type faninCase struct {
@@ -669,9 +804,14 @@ type faninCase struct {
 	isNil   []bool
 	caps    []int
 	seed    uint64
+	pre     []int // per source: state of the channel at call time (see feed)
 	ins     [][]int
 	outs    []int
 	closed  bool
+	// argument re-use: the caller's channel slice after the call, and a second call with the same (by now closed) channels
+	untouched bool
+	outs2     []int
+	closed2   bool
 }
 
 func genFanIn(r *vhlib.Rng, merge bool) *faninCase {
@@ -691,9 +831,11 @@ func genFanIn(r *vhlib.Rng, merge bool) *faninCase {
 			}
 		}
 		nilc := merge && r.Chance(1, 6)
-		if nilc {
+		pre := genPre(r)
+		if nilc || pre == 1 {
 			vs = nil
 		}
+		c.pre = append(c.pre, pre)
 		c.planned = append(c.planned, vs)
 		c.isNil = append(c.isNil, nilc)
 		c.caps = append(c.caps, []int{0, 0, 1, 2}[r.Intn(4)])
@@ -711,17 +853,14 @@ func (c *faninCase) run() {
 		if c.isNil[i] {
 			continue
 		}
-		chans[i] = make(chan int, c.caps[i])
-		wg.Add(1)
-		go func(i int, rp *vhlib.Rng) {
-			defer wg.Done()
-			for _, v := range c.planned[i] {
-				delay(rp)
-				chans[i] <- v // fan-in has no cancellation: every value is eventually taken
-			}
-			close(chans[i])
-		}(i, r.Fork())
+		var rest func() // fan-in has no cancellation: every value is eventually taken
+		chans[i], rest = feed(c.pre[i], c.planned[i], c.caps[i], r.Fork())
+		if rest != nil {
+			wg.Add(1)
+			go func() { defer wg.Done(); rest() }()
+		}
 	}
+	var ro, roCopy []<-chan int
 	var out <-chan int
 	if c.merge {
 		var a, b <-chan int
@@ -733,10 +872,11 @@ func (c *faninCase) run() {
 		}
 		out = bc.MergeChannel[int](a, b)
 	} else {
-		ro := make([]<-chan int, n)
+		ro = make([]<-chan int, n)
 		for i := range chans {
 			ro[i] = chans[i]
 		}
+		roCopy = append([]<-chan int(nil), ro...)
 		out = bc.FanInRec[int](ro...)
 	}
 	dl := time.NewTimer(closeDeadline)
@@ -759,6 +899,32 @@ loop:
 		wg.Wait()
 	}
 	c.ins = c.planned // closed: every source was drained; not closed: reported as a violation anyway
+	c.untouched = true
+	if !c.merge && c.closed {
+		for i := range roCopy {
+			if ro[i] != roCopy[i] {
+				c.untouched = false
+			}
+		}
+		// the same argument list once more: every channel is closed and empty by now
+		out2 := bc.FanInRec[int](ro...)
+		dl2 := time.NewTimer(deadlineNow())
+		defer dl2.Stop()
+	loop2:
+		for {
+			select {
+			case v, ok := <-out2:
+				if !ok {
+					c.closed2 = true
+					break loop2
+				}
+				c.outs2 = append(c.outs2, v)
+			case <-dl2.C:
+				unclosed.Add(1)
+				break loop2
+			}
+		}
+	}
 }
 
 func (c *faninCase) term() string {
@@ -779,10 +945,15 @@ type fanoutCase struct {
 	outs    [][]int
 	closed  []bool
 	inDone  bool
+	pre       int  // state of the input channel at call time
+	untouched bool // the caller's out slice after the call
 }
 
 func genFanOut(r *vhlib.Rng, async bool) *fanoutCase {
-	c := &fanoutCase{async: async, planned: genValues(r), seed: r.U64()}
+	c := &fanoutCase{async: async, planned: genValues(r), seed: r.U64(), pre: genPre(r)}
+	if c.pre == 1 {
+		c.planned = nil
+	}
 	n := r.Range(0, 3)
 	for i := 0; i < n; i++ {
 		c.caps = append(c.caps, []int{0, 0, 1, 2}[r.Intn(4)])
@@ -793,32 +964,59 @@ func genFanOut(r *vhlib.Rng, async bool) *fanoutCase {
 func (c *fanoutCase) run() {
 	r := vhlib.NewRng(c.seed)
 	n := len(c.caps)
-	in := make(chan int, []int{0, 0, 1, 2}[r.Intn(4)])
+	incap := []int{0, 0, 1, 2}[r.Intn(4)]
+	var in chan int
+	handed := 0
+	switch c.pre {
+	case 1, 2: // closed, with everything buffered, before FanOut is called
+		in = make(chan int, len(c.planned)+incap%2)
+		for _, v := range c.planned {
+			in <- v
+		}
+		handed = len(c.planned)
+		close(in)
+	default:
+		in = make(chan int, incap)
+		if c.pre == 3 {
+			for handed < len(c.planned) && handed < incap {
+				in <- c.planned[handed]
+				handed++
+			}
+		}
+	}
 	outs := make([]chan int, n)
 	for i := range outs {
 		outs[i] = make(chan int, c.caps[i])
 	}
+	outsCopy := append([]chan int(nil), outs...)
 	c.outs = make([][]int, n)
 	c.closed = make([]bool, n)
 	bc.FanOut[int](in, outs, c.async)
 	var wg sync.WaitGroup
 	var pdone atomic.Bool
-	wg.Add(1)
-	go func(rp *vhlib.Rng) {
-		defer wg.Done()
-		dl := time.NewTimer(closeDeadline)
-		defer dl.Stop()
-		for _, v := range c.planned {
-			delay(rp)
-			select {
-			case in <- v:
-			case <-dl.C:
-				return
-			}
-		}
-		close(in)
+	if c.pre == 1 || c.pre == 2 {
 		pdone.Store(true)
-	}(r.Fork())
+	} else {
+		wg.Add(1)
+		go func(rp *vhlib.Rng) {
+			defer wg.Done()
+			dl := time.NewTimer(closeDeadline)
+			defer dl.Stop()
+			if c.pre == 4 {
+				time.Sleep(time.Duration(rp.Range(50, 600)) * time.Microsecond)
+			}
+			for _, v := range c.planned[handed:] {
+				delay(rp)
+				select {
+				case in <- v:
+				case <-dl.C:
+					return
+				}
+			}
+			close(in)
+			pdone.Store(true)
+		}(r.Fork())
+	}
 	for i := 0; i < n; i++ {
 		wg.Add(1)
 		go func(i int, rc *vhlib.Rng) {
@@ -842,6 +1040,12 @@ func (c *fanoutCase) run() {
 	}
 	wg.Wait()
 	c.inDone = pdone.Load()
+	c.untouched = true
+	for i := range outsCopy {
+		if outs[i] != outsCopy[i] {
+			c.untouched = false
+		}
+	}
 }
 
 func (c *fanoutCase) term() string {
@@ -921,6 +1125,7 @@ func genReduceValues(r *vhlib.Rng) []int {
 }
 
 type reduceCase struct {
+	pre      int // state of the input channel at call time (see feed)
 	nilIn    bool
 	f        rfn
 	planned  []int
@@ -943,16 +1148,12 @@ func (c *reduceCase) run() {
 	var in chan int
 	var wg sync.WaitGroup
 	if !c.nilIn {
-		in = make(chan int, []int{0, 0, 1, 3}[r.Intn(4)])
-		wg.Add(1)
-		go func(rp *vhlib.Rng) {
-			defer wg.Done()
-			for _, v := range c.planned {
-				delay(rp)
-				in <- v
-			}
-			close(in)
-		}(r.Fork())
+		var rest func()
+		in, rest = feed(c.pre, c.planned, []int{0, 0, 1, 3}[r.Intn(4)], r.Fork())
+		if rest != nil {
+			wg.Add(1)
+			go func() { defer wg.Done(); rest() }()
+		}
 	}
 	done := make(chan int, 1)
 	go func() {
@@ -977,36 +1178,94 @@ type orderlyCase struct {
 	seed     uint64
 	log      [][2]int
 	returned bool
+	// argument aliasing and re-use: the caller's slice after the first call, then a second call on the same list, on a
+	// sub-slice of it, or on a longer slice sharing its backing array (ids in log2 are relative to lo)
+	untouched bool
+	lo, hi    int
+	log2      [][2]int
+	returned2 bool
+	panic2    string
 }
 
 func (c *orderlyCase) run() {
 	r := vhlib.NewRng(c.seed)
 	var mu sync.Mutex
-	tasks := make([]*bc.OrderlyTask, c.n)
-	for i := 0; i < c.n; i++ {
+	extra := r.Intn(3)
+	backing := make([]*bc.OrderlyTask, c.n+extra)
+	cur := &c.log
+	for i := range backing {
 		i := i
 		rt := r.Fork()
-		tasks[i] = bc.NewOrderTask(func() {
+		backing[i] = bc.NewOrderTask(func() {
 			mu.Lock()
-			c.log = append(c.log, [2]int{i, 1})
+			*cur = append(*cur, [2]int{i, 1})
 			mu.Unlock()
 			delay(rt)
 			delay(rt)
 			mu.Lock()
-			c.log = append(c.log, [2]int{i, 0})
+			*cur = append(*cur, [2]int{i, 0})
 			mu.Unlock()
 		})
 	}
-	done := make(chan struct{})
-	go func() { bc.Orderly(tasks); close(done) }()
-	select {
-	case <-done:
-		c.returned = true
-	case <-time.After(closeDeadline):
+	before := append([]*bc.OrderlyTask(nil), backing...)
+	call := func(ts []*bc.OrderlyTask) (returned bool, panicked string) {
+		done := make(chan string, 1)
+		go func() {
+			defer func() { // a panic of the code under test is an outcome, not the end of the harness
+				if x := recover(); x != nil {
+					done <- fmt.Sprint(x)
+				}
+			}()
+			bc.Orderly(ts)
+			done <- ""
+		}()
+		select {
+		case p := <-done:
+			return p == "", p
+		case <-time.After(deadlineNow()):
+			unclosed.Add(1)
+			return false, ""
+		}
+	}
+	c.returned, _ = call(backing[:c.n])
+	c.untouched = true
+	for i := range backing {
+		if backing[i] != before[i] {
+			c.untouched = false
+		}
+	}
+	// second call: the same list, a sub-slice, or a longer slice over the same backing array
+	switch r.Intn(3) {
+	case 0:
+		c.lo, c.hi = 0, c.n
+	case 1:
+		c.lo = r.Range(0, c.n)
+		c.hi = r.Range(c.lo, c.n)
+	default:
+		c.lo, c.hi = r.Range(0, c.n), c.n+extra
+	}
+	mu.Lock()
+	cur = &c.log2
+	mu.Unlock()
+	if c.returned {
+		c.returned2, c.panic2 = call(backing[c.lo:c.hi])
 	}
 	mu.Lock()
 	c.log = append([][2]int(nil), c.log...)
+	c.log2 = append([][2]int(nil), c.log2...)
 	mu.Unlock()
+}
+
+func (c *orderlyCase) term2() string {
+	it := make([]string, 0, len(c.log2))
+	for _, e := range c.log2 {
+		id := e[0] - c.lo
+		if id < 0 {
+			id = 1000 + e[0] // a task outside the slice ran: cannot match the expected log
+		}
+		it = append(it, vhlib.Pair(vhlib.Nat(id), vhlib.Bool(e[1] == 1)))
+	}
+	return fmt.Sprintf("KOrderly %s %s %s", vhlib.Nat(c.hi-c.lo), vhlib.List(it), vhlib.Bool(c.returned2))
 }
 
 func (c *orderlyCase) term() string {
@@ -1112,8 +1371,24 @@ func main() {
 				complete++
 			}
 			w.Case(c.term(), c.name, len(c.ins) > 0, nil, map[string]interface{}{"combinator": c.name, "coq": c.coq,
-				"planned": c.planned, "incap": c.incap, "cancel_mode": c.mode, "cancel_k": c.k, "abandon_j": c.abandonJ, "abandon_resume": c.resume, "pointer_elements": c.ptr, "ctx_kind": c.ctxKind, "nil_in": c.nilIn, "run_seed": c.seed,
+				"planned": c.planned, "incap": c.incap, "cancel_mode": c.mode, "cancel_k": c.k, "input_state_at_call": c.pre, "abandon_j": c.abandonJ, "abandon_resume": c.resume, "pointer_elements": c.ptr, "ctx_kind": c.ctxKind, "nil_in": c.nilIn, "run_seed": c.seed,
 				"observed": map[string]interface{}{"ins": c.ins, "outs": c.outs, "closed": c.closed, "cancelled": c.cancelled, "fn_called_with": c.calls}})
+		}
+	}
+	{
+		cs := make([]*streamReuseCase, reps/4)
+		jobs := make([]func(), len(cs))
+		for i := range cs {
+			cs[i] = &streamReuseCase{vals: genValues(rng)}
+			jobs[i] = cs[i].run
+		}
+		runBatch(w, "Stream", jobs, par)
+		for _, c := range cs {
+			w.Case("KUntouched "+vhlib.Bool(c.untouched), "Stream args", false, nil, map[string]interface{}{"combinator": "Stream",
+				"what": "the caller's values slice compared with a copy taken before the call", "values": c.vals})
+			w.Case(fmt.Sprintf("KStage CStream false %s %s %s %s false []", vhlib.Nat(len(c.vals)), vhlib.IntList(c.vals), vhlib.IntList(c.outs2), vhlib.Bool(c.closed2)),
+				"Stream reuse", len(c.vals) > 0, nil, map[string]interface{}{"combinator": "Stream", "what": "second Stream over the same values slice",
+					"values": c.vals, "observed": map[string]interface{}{"outs": c.outs2, "closed": c.closed2}})
 		}
 	}
 	for _, merge := range []bool{false, true} {
@@ -1130,7 +1405,18 @@ func main() {
 		runBatch(w, name, jobs, par)
 		for _, c := range cs {
 			w.Case(c.term(), name, len(c.outs) > 0, nil, map[string]interface{}{"combinator": name, "planned": c.planned,
-				"nil": c.isNil, "caps": c.caps, "run_seed": c.seed, "observed": map[string]interface{}{"outs": c.outs, "closed": c.closed}})
+				"nil": c.isNil, "caps": c.caps, "input_state_at_call": c.pre, "run_seed": c.seed, "observed": map[string]interface{}{"outs": c.outs, "closed": c.closed}})
+			if !merge && c.closed {
+				w.Case("KUntouched "+vhlib.Bool(c.untouched), "FanInRec args", false, nil, map[string]interface{}{"combinator": name,
+					"what": "the caller's channel slice passed as channels... compared with a copy taken before the call", "planned": c.planned})
+				empty := make([]string, len(c.planned))
+				for i := range empty {
+					empty[i] = "[]"
+				}
+				w.Case(fmt.Sprintf("KFanIn %s %s %s", vhlib.List(empty), vhlib.IntList(c.outs2), vhlib.Bool(c.closed2)), "FanInRec reuse", false, nil,
+					map[string]interface{}{"combinator": name, "what": "second call with the same, by now closed and drained, channels", "sources": len(c.planned),
+						"observed": map[string]interface{}{"outs": c.outs2, "closed": c.closed2}})
+			}
 		}
 	}
 	for _, async := range []bool{false, true} {
@@ -1147,8 +1433,10 @@ func main() {
 		runBatch(w, "FanOut", jobs, par)
 		for _, c := range cs {
 			w.Case(c.term(), name, len(c.planned) > 0 && len(c.caps) > 0, nil, map[string]interface{}{"combinator": name,
-				"planned": c.planned, "caps": c.caps, "run_seed": c.seed, "input_fully_taken": c.inDone,
+				"planned": c.planned, "caps": c.caps, "run_seed": c.seed, "input_fully_taken": c.inDone, "input_state_at_call": c.pre,
 				"observed": map[string]interface{}{"outs": c.outs, "closed": c.closed}})
+			w.Case("KUntouched "+vhlib.Bool(c.untouched), "FanOut args", false, nil, map[string]interface{}{"combinator": name,
+				"what": "the caller's out slice compared with a copy taken before the call", "outputs": len(c.caps)})
 		}
 	}
 	{
@@ -1156,7 +1444,8 @@ func main() {
 		jobs := make([]func(), reps)
 		for i := range cs {
 			cs[i] = &reduceCase{nilIn: rng.Chance(1, 10), f: genRfn(rng), planned: genReduceValues(rng), seed: rng.U64()}
-			if cs[i].nilIn {
+			cs[i].pre = genPre(rng)
+			if cs[i].nilIn || cs[i].pre == 1 {
 				cs[i].planned = nil
 			}
 			jobs[i] = cs[i].run
@@ -1189,6 +1478,13 @@ func main() {
 		for _, c := range cs {
 			w.Case(c.term(), "Orderly", c.n > 1, nil, map[string]interface{}{"combinator": "Orderly", "n": c.n, "run_seed": c.seed,
 				"observed": map[string]interface{}{"log": c.log, "returned": c.returned}})
+			if c.returned {
+				w.Case("KUntouched "+vhlib.Bool(c.untouched), "Orderly args", false, nil, map[string]interface{}{"combinator": "Orderly", "n": c.n,
+					"what": "the caller's task slice (whole backing array) compared with a copy taken before the call"})
+				w.Case(c.term2(), "Orderly reuse", c.hi-c.lo > 1, nil, map[string]interface{}{"combinator": "Orderly", "n": c.n, "run_seed": c.seed,
+					"what": "second Orderly call on tasks[lo:hi] of the backing array whose [0:n] was run before", "lo": c.lo, "hi": c.hi,
+					"observed": map[string]interface{}{"log": c.log2, "returned": c.returned2, "panic": c.panic2}})
+			}
 		}
 	}
 	w.Notes["runs_cancelled_before_close_seen"] = cancelled
